@@ -326,6 +326,13 @@ def parent(prop, tier, seed, scale=1.0, only_parts=None, max_procs=None):
                 f = open_by_replay[fn]
                 if sig == f.signature:
                     lines.append('KNOWN-FINDING: property=%s %s [%s]' % (prop, f.what, f.signature))
+                elif sig is None:
+                    # a listed finding is always announced; its reproducer depends on a numerical optimiser (D21) and may not land
+                    # in the failing regime in every environment
+                    lines.append('KNOWN-FINDING: property=%s %s [%s] (its reproducer did not fail in this run)' % (prop, f.what, f.signature))
+                elif sig in set(g.signature for g in open_f):
+                    # the reproducer ran into ANOTHER listed finding of this property first (the D21 symptoms share a regime)
+                    lines.append('KNOWN-FINDING: property=%s %s [%s] (its reproducer met [%s] first)' % (prop, f.what, f.signature, sig))
                 elif sig is not None:
                     violations.append({'signature': sig, 'message': r['message'],
                                        'replay': os.path.join('replays', 'regress', fn)})
